@@ -507,6 +507,12 @@ func (c *concRun) runClient(ci int, ops []Op) {
 			w.x.out.probe("conc-mount")
 		case "sleep":
 			simrt.Sleep(time.Duration(op.Ms) * time.Millisecond)
+		case "aligntick":
+			// wake up at the very instant the collection ticker fires: who runs first is the scheduler's choice
+			if f := w.k.freq(); f > 0 {
+				el := time.Since(w.openedAt)
+				simrt.Sleep(f - el%f + time.Duration(op.Ms)*time.Microsecond)
+			}
 		case "gc":
 			_ = w.forceGC(repo)
 		case "close":
@@ -1023,9 +1029,11 @@ func planC12(prop string, seed uint64, tier string, idx int) *Plan {
 		g.p.Profile += " (close in flight)"
 		ms := int64(g.r.pick(0, 1, 3, 20))
 		if f := k.freq(); f > 0 && g.r.chance(50) {
-			ms = f.Milliseconds() * int64(g.r.pick(1, 2, 3)) // Close and a collection tick become due at the same instant
+			// Close and a collection tick become due at the same instant
+			clients = append(clients, []Op{{K: "sleep", Ms: ms}, {K: "aligntick", Ms: int64(g.r.pick(0, 0, 1))}, {K: "close"}})
+		} else {
+			clients = append(clients, []Op{{K: "sleep", Ms: ms}, {K: "close"}})
 		}
-		clients = append(clients, []Op{{K: "sleep", Ms: ms}, {K: "close"}})
 	}
 	return coldStart(cg.finishConc(prop, clients), seed)
 }
